@@ -48,7 +48,13 @@ CFG = {
         "every pivot position of one tree; clone program: up to 4 handles, 25-75 steps with snapshots of all handles; concurrent: "
         "2-4 goroutines on disjoint key classes of one wrapper; targeted: every limit 0..len+1 of the four wrapper scans and every stop "
         "count of the ten entry points on trees of >= 3 levels, every present key stored again, Clone taken exactly when the root "
-        "is full, as a leaf and as an inner root, followed by a write on either side) generated from its own seed; non-trivial = at least 4 steps; "
+        "is full, as a leaf and as an inner root, followed by a write on either side; big wrapper trees of 1100-1500 keys (thorough: up to "
+        "5000) given compactly as key = start + step*((j*stride) mod count), payload = key+7, which both sides expand and insert in "
+        "that order, then the four scans with the all-pass and one sparse filter and limits from {1023, 1024, 1025, 2000, len-1, len, "
+        "len+1, 2^20}; for these the scan results are compared through a summary only - (number of items, first 3 items, last 3 "
+        "items, checksum acc := (acc*1000003 + 7*key + payload) mod (2^31-1) over the whole result, defined in C03_Check.v and in "
+        "the harness) - because printing 30 full lists of >1000 items per case is too slow to elaborate; all other cases compare "
+        "full lists) generated from its own seed; non-trivial = at least 4 steps; "
         "distinct = distinct Coq term (ops + observed results + observed shapes)"
     ),
     "trusted": [
